@@ -407,8 +407,19 @@ impl<'a> TypeEncoder<'a> {
             }
         }
 
+        // Likewise an interface that the world exports itself is exported
+        // before the exports that depend on it, which then refer to the export.
+        let mut exported = HashSet::new();
         for (name, kind) in &world.exports {
-            self.export(state, name, *kind);
+            if let ItemKind::Instance(id) = kind {
+                for used in self.0[*id].uses.values() {
+                    self.export_explicit_deps(state, world, used.interface, &mut exported);
+                }
+            }
+
+            if exported.insert(name.as_str()) {
+                self.export(state, name, *kind);
+            }
         }
 
         match state.pop() {
@@ -440,6 +451,34 @@ impl<'a> TypeEncoder<'a> {
                 if imported.insert(name.as_str()) {
                     self.import(state, name, *kind);
                 }
+            }
+        }
+    }
+
+    /// Exports the interfaces that `id` transitively depends on and that the
+    /// given world exports itself, unless they are already available.
+    fn export_explicit_deps<'w>(
+        &self,
+        state: &mut State,
+        world: &'w World,
+        id: InterfaceId,
+        exported: &mut HashSet<&'w str>,
+    ) {
+        let Some(iid) = &self.0[id].id else {
+            return;
+        };
+
+        if state.current.instances.contains_key(iid) {
+            return;
+        }
+
+        if let Some((name, kind @ ItemKind::Instance(_))) = world.exports.get_key_value(iid) {
+            for used in self.0[id].uses.values() {
+                self.export_explicit_deps(state, world, used.interface, exported);
+            }
+
+            if exported.insert(name.as_str()) {
+                self.export(state, name, *kind);
             }
         }
     }
